@@ -46,6 +46,9 @@ type PState struct {
 	rels   []Rel
 	trace  []*ssa.BasicBlock
 	U      UserState
+	// canon maps every `len(param)` call to one representative per parameter: the length
+	// of a slice parameter never changes, so all such calls are one value (shared, read-only)
+	canon map[ssa.Value]ssa.Value
 }
 
 func newPState() *PState {
@@ -74,6 +77,7 @@ func (p *PState) clone() *PState {
 	}
 	q.rels = append([]Rel(nil), p.rels...)
 	q.trace = append([]*ssa.BasicBlock(nil), p.trace...)
+	q.canon = p.canon
 	if p.U != nil {
 		q.U = p.U.Clone()
 	}
@@ -108,6 +112,7 @@ type Walker struct {
 	Paths    int
 	Merged   int
 	Overflow bool
+	canon    map[ssa.Value]ssa.Value
 	live     map[*ssa.BasicBlock]*liveInfo
 	seenSig  map[*ssa.BasicBlock]map[string]bool
 }
@@ -246,7 +251,35 @@ func (w *Walker) RunFrom(b, pred *ssa.BasicBlock, init UserState) {
 	}
 	p := newPState()
 	p.U = init
+	p.canon = w.lenCanon()
 	w.walk(b, pred, p)
+}
+
+func (w *Walker) lenCanon() map[ssa.Value]ssa.Value {
+	if w.canon != nil {
+		return w.canon
+	}
+	w.canon = map[ssa.Value]ssa.Value{}
+	first := map[*ssa.Parameter]ssa.Value{}
+	for _, b := range w.Fn.Blocks {
+		for _, ins := range b.Instrs {
+			call, ok := ins.(*ssa.Call)
+			if !ok {
+				continue
+			}
+			bi, ok := call.Call.Value.(*ssa.Builtin)
+			if !ok || bi.Name() != "len" {
+				continue
+			}
+			if pr, ok := call.Call.Args[0].(*ssa.Parameter); ok {
+				if first[pr] == nil {
+					first[pr] = call
+				}
+				w.canon[call] = first[pr]
+			}
+		}
+	}
+	return w.canon
 }
 
 func (w *Walker) walk(b, pred *ssa.BasicBlock, p *PState) {
@@ -284,6 +317,9 @@ func (w *Walker) walk(b, pred *ssa.BasicBlock, p *PState) {
 		def := map[ssa.Value]bool{}
 		for _, ins := range b.Instrs {
 			if v, ok := ins.(ssa.Value); ok {
+				if _, stable := p.canon[v]; stable {
+					continue
+				}
 				def[v] = true
 				delete(p.facts, v)
 			}
@@ -402,6 +438,9 @@ func (w *Walker) walk(b, pred *ssa.BasicBlock, p *PState) {
 // Resolve maps a value to its canonical representative on this path.
 func (p *PState) Resolve(v ssa.Value) ssa.Value {
 	for i := 0; i < 32; i++ {
+		if cv, ok := p.canon[v]; ok {
+			return cv
+		}
 		switch x := v.(type) {
 		case *ssa.Phi:
 			if r, ok := p.phis[x]; ok {
